@@ -19,6 +19,9 @@
           set to the column type is lossy (see Model/Prune.v)
      E  : which leaf expressions pyarrow refuses on which row beyond the Python-incomparable ones
           (no kernel for the column type, e.g. int64 vs bool; lossy cast, e.g. 2^53+1 vs 0.5)
+     B  : which expressions pyarrow refuses to BIND to the schema of the table's files -- before it looks at any
+          row, hence also on a table WITHOUT rows (unknown column: ArrowInvalid; no kernel for the column type:
+          ArrowNotImplementedError; a value set that cannot be cast to it: ArrowTypeError)
      PA : which Python literals pyarrow accepts when the expression is built (pa.scalar, pa.array)
 
    Definitions only. *)
@@ -106,8 +109,18 @@ Section Eval.
       end
     end.
 
-  Definition apply_filter (ce : option cexpr) (rows : list row) : res (list row) :=
+  Definition apply_rows (ce : option cexpr) (rows : list row) : res (list row) :=
     match ce with None => Ok rows | Some e => filter_rows e rows end.
+
+  (* Table.filter(expr) on one table (a whole file, one record batch, or the EMPTY table of a file without rows):
+     the expression is bound to the table's schema first -- a refusal there does not depend on the rows, and
+     there need not be any -- and evaluated row by row afterwards *)
+  Variable B : cexpr -> bool.
+
+  Definition refused (ce : option cexpr) : bool := match ce with None => false | Some e => B e end.
+
+  Definition apply_filter (ce : option cexpr) (rows : list row) : res (list row) :=
+    if refused ce then Err EEval else apply_rows ce rows.
 End Eval.
 
 (* ------------------------------------------------------------------ projection *)
@@ -166,12 +179,23 @@ Definition parse_op (k : okey) : res fop :=
   | OpOther => Err EParse
   end.
 
-(* `lo, hi = value`: exactly two elements (a 2-character str unpacks into its characters) *)
+(* `if not isinstance(value, (list, tuple)): raise` then `lo, hi = value`: a list / tuple of exactly two
+   elements (repaired: a 2-character str used to be unpacked into its characters) *)
 Definition unpack2 (a : parg) : res (value * value) :=
   match a with
   | AList [lo; hi] => Ok (lo, hi)
-  | AVal (VStr [a; b]) => Ok (VStr [a], VStr [b])
   | _ => Err EParse
+  end.
+
+(* `value is not True` (repaired: the flag of is_null / is_not_null used to be ignored) *)
+Definition flag_true (a : parg) : bool := match a with AVal (VBool true) => true | _ => false end.
+
+(* `op in (IN, NOT_IN) and isinstance(value, (str, bytes, bytearray))` (repaired: a str value set used to be
+   iterated character by character); the `value` type has no bytes kind *)
+Definition text_value_set (op : fop) (a : parg) : bool :=
+  match op, a with
+  | IN, AVal (VStr _) | NOT_IN, AVal (VStr _) => true
+  | _, _ => false
   end.
 
 Definition key_is (p : string -> bool) (k : okey) : bool :=
@@ -183,9 +207,12 @@ Definition parse_one (c : Z) (cd : cond) : res (list pexpr) :=
     if key_is (String.eqb between_key) k then
       bind (unpack2 a) (fun lh => Ok [ {| pcol := c; pop := GE; pval := AVal (fst lh) |};
                                        {| pcol := c; pop := LE; pval := AVal (snd lh) |} ])
-    else if key_is (fun s => mem_str s is_null_aliases) k then Ok [ {| pcol := c; pop := IS_NULL; pval := AVal VNull |} ]
-    else if key_is (fun s => mem_str s is_not_null_aliases) k then Ok [ {| pcol := c; pop := IS_NOT_NULL; pval := AVal VNull |} ]
-    else bind (parse_op k) (fun op => Ok [ {| pcol := c; pop := op; pval := a |} ])
+    else if key_is (fun s => mem_str s is_null_aliases) k then
+      if flag_true a then Ok [ {| pcol := c; pop := IS_NULL; pval := AVal VNull |} ] else Err EParse
+    else if key_is (fun s => mem_str s is_not_null_aliases) k then
+      if flag_true a then Ok [ {| pcol := c; pop := IS_NOT_NULL; pval := AVal VNull |} ] else Err EParse
+    else bind (parse_op k) (fun op =>
+      if text_value_set op a then Err EParse else Ok [ {| pcol := c; pop := op; pval := a |} ])
   | CPlain (AVal VNull) => Err EParse
   | CPlain a => Ok [ {| pcol := c; pop := EQ; pval := a |} ]
   end.
@@ -250,6 +277,7 @@ Definition chunk {A} (n : nat) (l : list A) : list (list A) := chunk_aux (length
 Section Pipelines.
   Variable X : value -> value -> bool.
   Variable E : cexpr -> row -> bool.
+  Variable B : cexpr -> bool.                                  (* refused when bound to the files' schema *)
   Variable PA : parg -> bool.
   Variable sch : list Z.                                       (* the columns of the table's parquet files *)
   Variable ids : list (Z * Z).                                 (* column -> field id *)
@@ -264,13 +292,13 @@ Section Pipelines.
 
   (* _read_datafile_table, checksum-verified branch: read everything, filter, THEN project *)
   Definition read_verified (cols : option (list Z)) (ce : option cexpr) (rows : list row) : res (list row) :=
-    bind (apply_filter X E ce rows) (select sch cols).
+    bind (apply_filter X E B ce rows) (select sch cols).
 
   (* _read_datafile_table, direct branch (repaired): identical when a filter is present; without a
      filter pq.read_table(src, columns=columns) *)
   Definition read_direct (cols : option (list Z)) (ce : option cexpr) (rows : list row) : res (list row) :=
     match ce with
-    | Some _ => bind (apply_filter X E ce rows) (select sch cols)
+    | Some _ => bind (apply_filter X E B ce rows) (select sch cols)
     | None => select sch cols rows
     end.
 
@@ -289,11 +317,26 @@ Section Pipelines.
   (* _iter_file_batches, one batch *)
   Definition batch_out (cols : option (list Z)) (ce : option cexpr) (batch : list row) : res (list row) :=
     match ce with
-    | Some _ => bind (apply_filter X E ce batch) (select sch cols)
+    | Some _ => bind (apply_filter X E B ce batch) (select sch cols)
     | None => Ok (select_lenient sch cols batch)
     end.
 
+  (* one file: every batch iter_batches yields, then (repaired) -- when the file has NO rows, so that possibly no
+     batch was yielded and nothing was evaluated -- the filter and the projection applied to the file's empty
+     table, as scan() does: an expression pyarrow cannot bind raises here too *)
+  Definition empty_file_check (cols : option (list Z)) (ce : option cexpr) (f : file) : res (list row) :=
+    match frows f, ce with
+    | [], Some _ => bind (apply_filter X E B ce []) (select sch cols)
+    | _, _ => Ok []
+    end.
+
   Definition file_batches (split : list row -> list (list row)) (cols : option (list Z)) (ce : option cexpr)
+             (f : file) : res (list (list row)) :=
+    bind (mapM (batch_out cols ce) (split (frows f))) (fun bs =>
+      bind (empty_file_check cols ce f) (fun _ => Ok (filter nonempty bs))).
+
+  (* the batch reader BEFORE the repair: a file without rows was never shown to pyarrow *)
+  Definition file_batches_unchecked (split : list row -> list (list row)) (cols : option (list Z)) (ce : option cexpr)
              (f : file) : res (list (list row)) :=
     bind (mapM (batch_out cols ce) (split (frows f))) (fun bs => Ok (filter nonempty bs)).
 
@@ -309,7 +352,12 @@ Section Pipelines.
 
   (* what a projection BEFORE the filter would do (the order _read_datafile_table must not use) *)
   Definition read_project_first (cols : option (list Z)) (ce : option cexpr) (rows : list row) : res (list row) :=
-    bind (select sch cols rows) (apply_filter X E ce).
+    bind (select sch cols rows) (apply_filter X E B ce).
+
+  Definition scan_batches_unchecked (split : list row -> list (list row)) (cols : option (list Z)) (flt : pyfilter)
+             (files : list file) : res (list (list row)) :=
+    bind (prepare PA flt) (fun ec =>
+      bind (mapM (file_batches_unchecked split cols (snd ec)) (prune_p (fst ec) files)) (fun bss => Ok (concat bss))).
 End Pipelines.
 
 (* the columns an expression reads *)
